@@ -194,6 +194,35 @@ fn mutate_tokens(src: &str, rng: &mut Rng) -> String {
     let k = rng.below(raw.spans.len() as u64) as usize;
     let (s, e) = raw.spans[k];
     let mut out = String::with_capacity(src.len() + 16);
+    // half of the mutants keep the token structure (so they reach resolution and type checking):
+    // an identifier / literal / constructor is replaced by another token of the same lexical shape
+    if rng.chance(1, 2) {
+        let shape = |t: &str| -> u8 {
+            let c = t.chars().next().unwrap_or(' ');
+            if t.starts_with('+') && t.len() > 1 { 1 } else if t.starts_with('.') && t.len() > 1 { 2 }
+            else if c.is_ascii_uppercase() { 3 } else if c.is_ascii_lowercase() || c == '_' { 4 }
+            else if c.is_ascii_digit() || c == '-' { 5 } else if c == '"' { 6 } else { 0 }
+        };
+        const KEYWORDS: [&str; 24] = ["end", "begin", "data", "codata", "as", "def", "define", "let", "param", "in", "that",
+            "do", "ret", "fn", "pi", "fix", "match", "comatch", "forall", "sigma", "exists", "_", "-", "--"];
+        let idents: Vec<usize> = (0..raw.spans.len())
+            .filter(|i| raw.classes[*i] == crate::c11::Raw::Code)
+            .filter(|i| { let t = &src[raw.spans[*i].0..raw.spans[*i].1]; shape(t) != 0 && !KEYWORDS.contains(&t) })
+            .collect();
+        if idents.len() >= 2 {
+            let a = *rng.pick(&idents);
+            let ta = &src[raw.spans[a].0..raw.spans[a].1];
+            let same: Vec<usize> = idents.iter().copied().filter(|b| { let tb = &src[raw.spans[*b].0..raw.spans[*b].1]; shape(tb) == shape(ta) && tb != ta }).collect();
+            if !same.is_empty() {
+                let b = *rng.pick(&same);
+                let tb = &src[raw.spans[b].0..raw.spans[b].1];
+                out.push_str(&src[..raw.spans[a].0]);
+                out.push_str(tb);
+                out.push_str(&src[raw.spans[a].1..]);
+                return out;
+            }
+        }
+    }
     match rng.below(6) {
         | 0 => {
             out.push_str(&src[..s]);
